@@ -1,14 +1,5 @@
 #!/bin/sh
-# tools/seed_all.sh : re-run every registered seeded change (seeded/<id>/patch.diff) against the check of its property.
+# tools/seed_all.sh [parallel] : re-run every registered seeded change (seeded/<id>/patch.diff) against the check of its property.
 # One line per seed: CAUGHT / MISSED. Scratch copies under /tmp, removed afterwards.
 cd "$(dirname "$0")/.." || exit 2
-here=$(pwd)
-for dir in seeded/*/; do
-  id=$(basename "$dir"); cid=$(echo "$id" | cut -c1-3)
-  d=$(mktemp -d /tmp/verif-seedall.XXXXXX)
-  rsync -a --exclude .git --exclude __pycache__ /repo/ "$d/mut/"
-  if ! (cd "$d/mut" && patch -p1 -s < "$here/$dir/patch.diff"); then echo "$id PATCH-DOES-NOT-APPLY"; rm -rf "$d"; continue; fi
-  out=$(VERIF_TARGET="$d/mut/src" VERIF_EVIDENCE_DIR="$d/evidence" timeout 1800 "$here/check" "$cid" --tier quick 2>&1); rc=$?
-  if echo "$out" | grep -q "^VIOLATION property=$cid"; then echo "$id CAUGHT rc=$rc $(echo "$out" | grep -m1 '^violation' | cut -c1-120)"; else echo "$id MISSED rc=$rc"; fi
-  rm -rf "$d"
-done
+ls seeded | xargs -P "${1:-1}" -n 1 sh tools/seed_one.sh
